@@ -402,7 +402,7 @@ fn feasibility(world: &World, ctx: &InsertionContext) -> Vec<(String, String)> {
     let solution: CoreSolution = (copy, None).into();
     match catch(|| write_solution(world.core.as_ref(), &solution)) {
         Ok(Ok(json)) => {
-            let findings = oracle::check(&world.problem, &json, &OracleOptions { tol: if world.family == "scale" { 1. } else { 0. } });
+            let findings = oracle::check(&world.problem, &json, &OracleOptions { tol: oracle::tolerance(&world.family, &world.problem) });
             if std::env::var("VERIF_DUMP").is_ok() && !findings.is_empty() {
                 eprintln!("PROBLEM {}\nMATRICES {}\nSOLUTION {}", world.problem.problem_json(), serde_json::json!(world.problem.matrices_json()), json);
                 for f in &findings {
@@ -419,7 +419,18 @@ fn feasibility(world: &World, ctx: &InsertionContext) -> Vec<(String, String)> {
             .collect()
         }
         Ok(Err(e)) => vec![("I5:cannot-write".into(), e)],
-        Err(p) => vec![(format!("I5:write-panic@{}", panic_site(&p)), p)],
+        Err(p) => {
+            if std::env::var("VERIF_DUMP").is_ok() {
+                for r in ctx.solution.routes.iter() {
+                    eprintln!(
+                        "ROUTE {}: {:?}",
+                        r.route().actor.vehicle.dimens.get_vehicle_id().cloned().unwrap_or_default(),
+                        r.route().tour.all_activities().map(|a| (a.place.location, a.schedule.arrival, a.schedule.departure)).collect::<Vec<_>>()
+                    );
+                }
+            }
+            vec![(format!("I5:write-panic@{}", panic_site(&p)), p)]
+        }
     }
 }
 
@@ -669,6 +680,10 @@ fn slice(tier: Tier) -> Vec<(String, PProblem)> {
     // ten jobs of every kind, three vehicles of two types, reload, break, skills, relation
     for p in family_mixed10() {
         out.push(("mixed10".to_string(), p));
+    }
+    // feature interaction: pairs of feature transforms (quick: every 12th pair, thorough: every pair)
+    for p in family_combo(2).into_iter().step_by(tier.pick(12, 1)) {
+        out.push(("combo".to_string(), p));
     }
     out
 }
